@@ -24,6 +24,7 @@ import (
 	"strconv"
 	"strings"
 	"sync"
+	"sync/atomic"
 	"time"
 )
 
@@ -112,6 +113,7 @@ type subState struct {
 	ord         int
 	owned       int
 	journal     bool
+	watchdog    time.Duration
 	replay      func(raw json.RawMessage, w *W)
 	w           *W
 	started     bool
@@ -173,11 +175,37 @@ func Variant(v string) Opt { return func(s *subState) { s.Variant = v } }
 // error) is attributed to the case.
 func Journal() Opt { return func(s *subState) { s.journal = true } }
 
+// Watchdog gives every case of the sub-check a termination oracle: a case that has not
+// returned after d is reported as a violation ("hang:case-did-not-return") and the worker
+// process is replaced, continuing after that case (a goroutine that is stuck inside the code
+// under test cannot be stopped any other way). d must be orders of magnitude above what a
+// case takes on a loaded machine.
+func Watchdog(d time.Duration) Opt { return func(s *subState) { s.watchdog = d } }
+
+// defaultWatchdog applies to every sub-check that does not set its own, except those of
+// scheduler variants (one "case" there is a whole exploration that runs up to the tier's
+// deadline; the scheduler has its own per-execution watchdog). No case of any check takes
+// more than seconds.
+const defaultWatchdog = 15 * time.Minute
+
+// stuckGrace: how long after its deadline a worker may still be running before the parent
+// ends it.
+const stuckGrace = 10 * time.Minute
+
+// replayOut is the real standard output while a replay captures the worker's records.
+var replayOut = os.Stdout
+
+// hangExit is the exit status of a worker whose watchdog fired.
+const hangExit = 97
+
 // NewSub declares a sub-check. run is called once per case.
 func NewSub[C any](w *W, name string, run func(c C, r *Rec), opts ...Opt) *Sub[C] {
 	st := &subState{Name: name, Outcomes: map[string]int{}, w: w, Notes: map[string]any{}}
 	for _, o := range opts {
 		o(st)
+	}
+	if st.watchdog == 0 && !strings.HasPrefix(st.Variant, "sched") {
+		st.watchdog = defaultWatchdog
 	}
 	s := &Sub[C]{st: st, run: run}
 	st.replay = func(raw json.RawMessage, w *W) {
@@ -185,6 +213,14 @@ func NewSub[C any](w *W, name string, run func(c C, r *Rec), opts ...Opt) *Sub[C
 		if err := json.Unmarshal(raw, &c); err != nil {
 			fmt.Fprintf(os.Stderr, "replay: cannot decode case: %v\n", err)
 			os.Exit(2)
+		}
+		if st.watchdog > 0 {
+			// replay of a case that does not return: say so instead of hanging
+			t := time.AfterFunc(st.watchdog, func() {
+				fmt.Fprintf(replayOut, "VIOLATION property=%s replay=%s\n  sub=%s fingerprint=hang:case-did-not-return: the case did not return within %v\n", w.cfg.ID, os.Getenv("VERIF_REPLAY_PATH"), st.Name, st.watchdog)
+				os.Exit(1)
+			})
+			defer t.Stop()
 		}
 		s.exec(c)
 	}
@@ -299,6 +335,16 @@ func (s *Sub[C]) DoOwned(c C) {
 	if st.journal {
 		b, _ := json.Marshal(c)
 		w.emit(map[string]any{"t": "j", "sub": st.Name, "owned": st.owned, "case": json.RawMessage(b)})
+	}
+	if st.watchdog > 0 && w.replaySub == "" {
+		owned := st.owned
+		t := time.AfterFunc(st.watchdog, func() {
+			b, _ := json.Marshal(c)
+			w.emit(map[string]any{"t": "hang", "sub": st.Name, "owned": owned, "case": json.RawMessage(b),
+				"msg": fmt.Sprintf("the case did not return within %v", st.watchdog)})
+			os.Exit(hangExit)
+		})
+		defer t.Stop()
 	}
 	s.exec(c)
 }
@@ -831,6 +877,7 @@ func sanitize(s string) string {
 func superviseWorker(bin, variant, tier string, i, n int, budget time.Duration) workerResult {
 	var res workerResult
 	skip := map[string]int{}
+	hangs := 0
 	for attempt := 0; attempt < 200; attempt++ {
 		args := []string{"--worker", fmt.Sprintf("%d/%d", i, n), "--tier", tier, "--variant", variant}
 		if budget > 0 {
@@ -855,12 +902,23 @@ func superviseWorker(bin, variant, tier string, i, n int, budget time.Duration) 
 			fmt.Fprintf(os.Stderr, "cannot start worker: %v\n", err)
 			return res
 		}
+		// a worker checks its deadline between cases; one that is still there long after
+		// it is stuck inside a case (hot loops have no per-case watchdog): it is ended and
+		// the run is a harness error ("could not decide"), never a silent pass
+		var stuck atomic.Bool
+		var killer *time.Timer
+		if budget > 0 {
+			killer = time.AfterFunc(budget+stuckGrace, func() {
+				stuck.Store(true)
+				cmd.Process.Kill()
+			})
+		}
 		var lastJ struct {
 			Sub   string
 			Owned int
 			Case  json.RawMessage
 		}
-		haveJ := false
+		haveJ, hung := false, false
 		doneSubs := map[string]bool{}
 		ended := false
 		rd := bufio.NewReaderSize(stdout, 1<<20)
@@ -896,6 +954,11 @@ func superviseWorker(bin, variant, tier string, i, n int, budget time.Duration) 
 							res.subs = append(res.subs, &s)
 							doneSubs[s.Name] = true
 						}
+					case "hang":
+						json.Unmarshal(m.Sub, &lastJ.Sub)
+						lastJ.Owned, lastJ.Case = m.Owned, m.Case
+						haveJ, hung = true, true
+						res.violations = append(res.violations, violation{Sub: lastJ.Sub, FP: "hang:case-did-not-return", Msg: m.Msg, Case: m.Case})
 					case "end":
 						ended = true
 					}
@@ -906,8 +969,15 @@ func superviseWorker(bin, variant, tier string, i, n int, budget time.Duration) 
 			}
 		}
 		werr := cmd.Wait()
+		if killer != nil {
+			killer.Stop()
+		}
 		if ended && werr == nil {
 			res.ended = true
+			return res
+		}
+		if stuck.Load() {
+			res.harness = append(res.harness, violation{Sub: lastJ.Sub, FP: "harness:worker-stuck", Msg: fmt.Sprintf("worker %d/%d (%s) was still running %v after its deadline and was ended; last journaled case attached (if any)", i, n, variant, stuckGrace), Case: lastJ.Case})
 			return res
 		}
 		// crashed
@@ -917,7 +987,14 @@ func superviseWorker(bin, variant, tier string, i, n int, budget time.Duration) 
 		}
 		st := stderr.String()
 		site := crashSite(st)
-		if site == "unknown" {
+		if hung {
+			// reported already; the worker ended itself
+			hangs++
+			if hangs >= 3 {
+				// enough examples; the rest of this shard stays unexplored (exhaustive:false)
+				return res
+			}
+		} else if site == "unknown" {
 			// no wharf function on the crashing goroutine's stack: the harness itself crashed
 			res.harness = append(res.harness, violation{Sub: lastJ.Sub, FP: "harness:crash-in-harness", Msg: "worker crashed outside wharf code: " + firstLine(crashLine(st)), Detail: tail(st, 3000), Case: lastJ.Case})
 		} else {
@@ -933,7 +1010,11 @@ func superviseWorker(bin, variant, tier string, i, n int, budget time.Duration) 
 		}
 		delta := int64(lastJ.Owned - skip[lastJ.Sub])
 		skip[lastJ.Sub] = lastJ.Owned
-		res.subs = append(res.subs, &subState{Name: lastJ.Sub, Variant: variant, Evals: delta, States: delta, Outcomes: map[string]int{"crash": 1}, Complete: true})
+		what := "crash"
+		if hung {
+			what = "hang"
+		}
+		res.subs = append(res.subs, &subState{Name: lastJ.Sub, Variant: variant, Evals: delta, States: delta, Outcomes: map[string]int{what: 1}, Complete: true})
 	}
 	return res
 }
@@ -1044,6 +1125,7 @@ func runReplay(cfg Config, body func(w *W), path string, seed int64) int {
 	// run the worker body in-process with stdout captured through a pipe
 	pr, pw, _ := os.Pipe()
 	realOut := os.Stdout
+	replayOut = realOut
 	os.Stdout = pw
 	done := make(chan []violation)
 	go func() {
@@ -1076,6 +1158,7 @@ func runReplay(cfg Config, body func(w *W), path string, seed int64) int {
 	if tier == "" {
 		tier = "quick"
 	}
+	os.Setenv("VERIF_REPLAY_PATH", path)
 	runWorker(cfg, body, tier, seed, "0/1", rf.Variant, "", 0, rf.Sub, rf.Case)
 	pw.Close()
 	os.Stdout = realOut
